@@ -19,7 +19,7 @@ try:
 except Exception:
     pass
 rows = []
-for d in sorted(glob.glob(os.path.join(ROOT, "seeded", "*"))):
+for d in sorted(x for x in glob.glob(os.path.join(ROOT, "seeded", "*")) if os.path.isdir(x)):
     name = os.path.basename(d)
     m = json.load(open(os.path.join(d, "meta.json")))
     own = m.get("checks", {}).get(m["property"] + ":quick", {})
@@ -31,7 +31,7 @@ for d in sorted(glob.glob(os.path.join(ROOT, "seeded", "*"))):
     neutral = m.get("status") == "neutralised"
     mo = matrix.get(name, {}).get(m["property"])
     if mo is not None: own = {"detected": mo[0] == 1 and mo[1] > 0, "wall_s": own.get("wall_s", 0), "exit": mo[0]}
-    owncell = "n/a (no longer a violation: see status_note)" if neutral else "not demanded (section 10, eighth wave)" if m.get("status") == "not-demanded" else (("yes" + (" (%ss)" % int(own.get("wall_s", 0)) if own.get("wall_s") else "")) if own.get("detected") else "NO")
+    owncell = "n/a (no longer a violation: see status_note)" if neutral else "not demanded (section 10)" if m.get("status") == "not-demanded" else (("yes" + (" (%ss)" % int(own.get("wall_s", 0)) if own.get("wall_s") else "")) if own.get("detected") else "NO")
     fr = m.get("first_run"); first = "-" if fr is None else ("yes" if fr.get("detected") else "no")
     also = ", ".join(others) + ((" (inconclusive: " + ", ".join(incon) + ")") if incon else "")
     if not also and len(matrix.get(name, {})) <= 1: also = prev_also.get(name, "")
